@@ -15,6 +15,7 @@ import GoNeat.Proofs.SolverExact
 import GoNeat.Proofs.SolverFF
 import GoNeat.Proofs.FastFFAll
 import Mathlib.Data.List.Nodup
+import Mathlib.Data.List.Perm.Subperm
 
 set_option linter.unusedSectionVars false
 
@@ -653,6 +654,16 @@ theorem no_bias (net : Net W) (fn : FastNet W) (h : OfNet net fn) (h0 : ¬ fn.nB
     rw [List.length_eq_zero_iff] at this
     rw [this] at hm
     simp at hm
+
+/-- every node has a fast index (the index order is duplicate-free, inside the node table and as long as it) -/
+theorem order_covers (net : Net W) {lvl : Nat → Nat} (hwf : TWF net lvl) (i : Nat) (hi : i < net.nodes.length) :
+    i ∈ orderOf net := by
+  have hsub : orderOf net ⊆ List.range net.nodes.length := by
+    intro j hj
+    obtain ⟨nd, hn⟩ := order_valid net hwf j hj
+    exact List.mem_range.mpr (valid_lt net j nd hn)
+  have hp := ((order_nodup net hwf).subperm hsub).perm_of_length_le (by rw [hwf.len]; simp)
+  exact hp.mem_iff.mpr (List.mem_range.mpr hi)
 
 /-! ### 8. Kind B: the folded biases and `fvalNode (ofNet net) (idx i) = evalNode net i` -/
 
